@@ -197,6 +197,18 @@ func init() {
 		x.assumed["strconv.Itoa: a string of 1..20 bytes (library contract)"] = true
 		return []Val{s}
 	}
+	libModels["strings.HasSuffix"] = func(x *Exec, st *State, e *ast.CallExpr, recv *Val) []Val {
+		a := x.expr(st, e.Args[0])
+		b := x.expr(st, e.Args[1])
+		x.assumed["strings.HasSuffix/HasPrefix: a deterministic predicate of the two strings (uninterpreted)"] = true
+		return []Val{{Typ: types.Typ[types.Bool], T: x.uninterp("uf_strings_HasSuffix", SBool, a.T, b.T)}}
+	}
+	libModels["strings.HasPrefix"] = func(x *Exec, st *State, e *ast.CallExpr, recv *Val) []Val {
+		a := x.expr(st, e.Args[0])
+		b := x.expr(st, e.Args[1])
+		x.assumed["strings.HasSuffix/HasPrefix: a deterministic predicate of the two strings (uninterpreted)"] = true
+		return []Val{{Typ: types.Typ[types.Bool], T: x.uninterp("uf_strings_HasPrefix", SBool, a.T, b.T)}}
+	}
 	libModels["strconv.Atoi"] = func(x *Exec, st *State, e *ast.CallExpr, recv *Val) []Val {
 		x.expr(st, e.Args[0])
 		r := x.freshVal(st, "atoi", types.Typ[types.Int])
